@@ -511,11 +511,20 @@ __make_ywd_c(unsigned int y, unsigned int c, dt_dow_t w, unsigned int cc)
 		canon_yc(y, c, hang);
 		break;
 	case YWD_SUNWK_CNT:
-		if (j01 == DT_SUNDAY) {
-			;
-		} else {
+		/* weeks begin on sundays, the first sunday begins week 1,
+		 * the days before 4 Jan are in ISO week 1 iff the year
+		 * begins on or before a thursday */
+		if (j01 <= DT_THURSDAY) {
 			c++;
 		}
+		if (w == DT_SUNDAY) {
+			/* and a sunday ends the ISO week before */
+			if (UNLIKELY(!c--)) {
+				/* no sunday in week 0 */
+				c = 0U;
+			}
+		}
+		canon_yc(y, c, hang);
 		break;
 	case YWD_MONWK_CNT:
 		if (j01 <= DT_MONDAY) {
@@ -523,6 +532,7 @@ __make_ywd_c(unsigned int y, unsigned int c, dt_dow_t w, unsigned int cc)
 		} else {
 			c++;
 		}
+		canon_yc(y, c, hang);
 		break;
 	}
 
